@@ -114,6 +114,10 @@ def tsc_case(run, tsc, rng, k):
     npart = None
     if k % 4 == 1 and nthread > 1 and n1d // 4 >= 2:
         npart = 2 * int(rng.integers(1, n1d // 8 + 1)) if n1d >= 8 else 2
+    if k % 4 in (2, 3) and (nthread == 1 or k % 8 == 2):
+        # one thread accepts any stripe count, odd ones included
+        nthread = 1
+        npart = int(rng.integers(1, n1d + 1))
     sort = bool(k % 2)
     # out of range by up to one box, with wrap=True
     wrap = True
